@@ -69,10 +69,15 @@ pub fn profile_for(prop: &str, thorough: bool) -> Profile {
             p.pct_failing = 15;
             p
         }
-        "C04" => b.with_apis(&CALL_SHAPES, 6, 2),
+        "C04" => {
+            let mut p = b.with_apis(&CALL_SHAPES, 6, 2);
+            p.aborts = true;
+            p
+        }
         "C05" => {
             let mut p = b.with_apis(&streams, 4, 1);
             p.pct_wide = 2;
+            p.aborts = true;
             p
         }
         "C06" => {
@@ -328,7 +333,7 @@ impl Check for SingleCheck {
     fn run_case(&self, tapes: &[Vec<u16>], want_decoded: bool) -> CaseReport {
         let (spec, cfg) = self.decode(tapes);
         let mut st = Tape::new(&tapes[2]);
-        let mut r = run_single(&spec, &cfg, Schedule::Tape(&mut st, self.max_actions));
+        let mut r = run_single(&spec, &cfg, Schedule::Tape(&mut st, self.max_actions, cfg.abort_after));
         let case = SingleCase {
             spec,
             cfg,
